@@ -82,7 +82,7 @@ def coveredReadDirSites : List Covered := [
   ⟨("libcnb/src/layer_env.rs", "LayerEnv::read_from_layer_dir", "fs::read_dir(&env_launch_path)", 0),
    "sub-directories of env.launch are inserted into the `process` map under their (distinct) names"⟩,
   ⟨("libcnb/src/layer_env.rs", "LayerEnvDelta::read_from_env_dir", "fs::read_dir(path.as_ref())", 0),
-   "files are inserted into a BTreeMap keyed by (behaviour, stem); order matters only if two file names classify to the same key, which the writer never produces (Lemmas/EnvDir2 classify_fileOf) — C03's domain"⟩,
+   "files are inserted into a BTreeMap keyed by (behaviour, stem); the visiting order matters only when two file names classify to the same key (`VAR` and `VAR.override`), which libcnb's writer never produces (Lemmas/EnvDir2 classify_fileOf) but a hand-prepared layer can hold: then the last file visited wins, and the visiting order is `read_dir` order — assumed stable for identical inputs on one file system, sampled by the harness class `layers-dupenv`; routing the listing through a hash container is caught there and by iteration_sites_are_modelled"⟩,
   ⟨("libcnb/src/platform.rs", "read_platform_env", "fs::read_dir(env_path)", 0),
    "files are inserted into `Env` under their (distinct) names; the platform env is an input, not an output"⟩,
   ⟨("libcnb/src/util.rs", "remove_dir_recursively", "fs::read_dir(dir)", 0),
